@@ -940,6 +940,14 @@ impl<'ast> LoweringContext<'ast> {
                     ));
                     return Err(());
                 }
+                // The macro emits a callback's return type as written, so it has to be FFI-safe as written
+                if !matches!(**out_type, ast::TypeName::Unit) && !out_type.is_ffi_safe() {
+                    let ffisafe = out_type.ffi_safe_version();
+                    self.errors.push(LoweringError::Other(format!(
+                        "Found FFI-unsafe type {out_type} in callback return type, consider using {ffisafe}"
+                    )));
+                    return Err(());
+                }
                 let mut params: Vec<CallbackParam> = Vec::new();
                 for in_ty in input_types.iter() {
                     let param =
